@@ -1,18 +1,19 @@
 (* C18 — proofs, part 4: the decision procedure decides the Prop; consequences. *)
 From Coq Require Import String List ZArith Bool Lia.
-From Verif Require Import C18.Model C18.Spec C18.Proofs_Vec C18.Proofs_Pass C18.Proofs_Round C18.Proofs_Gate.
+From Verif Require Import C18.Model C18.Spec C18.Proofs_Vec C18.Proofs_Pass C18.Proofs_Round C18.Proofs_Gate
+  C18.Proofs_Steps C18.Proofs_Multi.
 Import ListNotations.
 Open Scope Z_scope.
 
-Lemma check_round_sound c tbl psize evs :
-  check_round c tbl psize evs = 0 -> round_holds c tbl psize evs.
+Lemma check_round_from_sound c tbl psize um pum evs :
+  check_round_from c tbl psize um pum evs = 0 -> round_holds_from c tbl psize um pum evs.
 Proof.
-  unfold check_round, round_holds.
+  unfold check_round_from, round_holds_from.
   destruct (cdry c && negb (is_nil evs)) eqn:E1; [discriminate|].
   destruct (nothing_cond tbl psize && negb (is_nil evs)) eqn:E2; [discriminate|].
   destruct (forallb (fun e => ev_in tbl false e || ev_in tbl true e) evs) eqn:E3; cbn [negb]; [|discriminate].
   destruct (check_pass c tbl false (filter (ev_in tbl false) evs)
-              (init_state tbl false (node_avail (dims c) tbl))) as [k1 st1] eqn:E4.
+              (um, node_avail (dims c) tbl)) as [k1 st1] eqn:E4.
   destruct (k1 =? 0) eqn:E5; cbn [negb]; [|intros ->; discriminate].
   apply Z.eqb_eq in E5. subst k1. intros H.
   split.
@@ -25,10 +26,10 @@ Proof.
   exists st1, st2. split; apply check_pass_sound; assumption.
 Qed.
 
-Lemma check_round_complete c tbl psize evs :
-  round_holds c tbl psize evs -> check_round c tbl psize evs = 0.
+Lemma check_round_from_complete c tbl psize um pum evs :
+  round_holds_from c tbl psize um pum evs -> check_round_from c tbl psize um pum evs = 0.
 Proof.
-  unfold check_round, round_holds. intros [H1 [H2 [H3 [stN [stP [H4 H5]]]]]].
+  unfold check_round_from, round_holds_from. intros [H1 [H2 [H3 [stN [stP [H4 H5]]]]]].
   destruct (cdry c) eqn:Ed; cbn [andb].
   { rewrite (H1 eq_refl). cbn. destruct (nothing_cond tbl psize); reflexivity. }
   destruct (nothing_cond tbl psize) eqn:En; cbn [andb].
@@ -40,6 +41,13 @@ Proof.
   rewrite (check_pass_complete c tbl true _ _ _ H5). reflexivity.
 Qed.
 
+Lemma check_round_sound c tbl psize evs :
+  check_round c tbl psize evs = 0 -> round_holds c tbl psize evs.
+Proof. apply check_round_from_sound. Qed.
+Lemma check_round_complete c tbl psize evs :
+  round_holds c tbl psize evs -> check_round c tbl psize evs = 0.
+Proof. apply check_round_from_complete. Qed.
+
 Lemma gate_ok_iff c h tbl evs : gate_ok c h tbl evs = true <-> gate_holds c h tbl evs.
 Proof.
   unfold gate_ok, gate_holds. destruct (gating c); cbn [negb orb].
@@ -48,33 +56,6 @@ Proof.
     + intros H e He. apply Z.leb_le. apply H; [reflexivity|exact He].
   - split; [intros _ H; discriminate|reflexivity].
 Qed.
-
-Lemma check_hist_sound c : forall tbls obs h, check_hist c tbls obs h = 0 -> hist_holds c tbls obs h.
-Proof.
-  induction tbls as [|[tbl psize] t IH]; intros obs h; destruct obs as [|evs ot]; cbn [check_hist hist_holds];
-    try discriminate; [intros _; exact I|].
-  destruct (check_round c tbl psize evs =? 0) eqn:E1; cbn [negb]; [|intros H; rewrite H in E1; discriminate].
-  destruct (gate_ok c h tbl evs) eqn:E2; cbn [negb]; [|discriminate].
-  intros H. split; [apply check_round_sound; apply Z.eqb_eq; exact E1|].
-  split; [apply gate_ok_iff; exact E2|apply IH; exact H].
-Qed.
-
-Lemma check_hist_complete c : forall tbls obs h, hist_holds c tbls obs h -> check_hist c tbls obs h = 0.
-Proof.
-  induction tbls as [|[tbl psize] t IH]; intros obs h; destruct obs as [|evs ot]; cbn [check_hist hist_holds];
-    try tauto.
-  intros [H1 [H2 H3]]. rewrite (check_round_complete _ _ _ _ H1). cbn [Z.eqb negb].
-  apply gate_ok_iff in H2. rewrite H2. cbn [negb]. apply IH. exact H3.
-Qed.
-
-Theorem prop_code_iff c ns rounds obs : prop_code c ns rounds obs = 0 <-> C18_holds c ns rounds obs.
-Proof. split; [apply check_hist_sound|apply check_hist_complete]. Qed.
-
-Theorem main_prop_code fx c ns rounds :
-  wf_rounds rounds = true -> prop_code c ns rounds (map fst (run_gen fx c ns rounds ([], []))) = 0.
-Proof. intros H. apply prop_code_iff. apply main_holds_gen. exact H. Qed.
-
-(* the strict gate: decision procedure and Prop *)
 Lemma strict_gate_ok_iff c h tbl evs : strict_gate_ok c h tbl evs = true <-> strict_gate_holds c h tbl evs.
 Proof.
   unfold strict_gate_ok, strict_gate_holds. destruct (gating c); cbn [negb orb].
@@ -83,28 +64,79 @@ Proof.
     + intros H e He. apply Z.leb_le. apply H; [reflexivity|exact He].
   - split; [intros _ H; discriminate|reflexivity].
 Qed.
-Lemma check_strict_iff c : forall tbls obs h, check_strict c tbls obs h = 0 <-> strict_hist_holds c tbls obs h.
-Proof.
-  induction tbls as [|[tbl ps] t IH]; intros [|evs ot] h; cbn [check_strict strict_hist_holds]; try tauto.
-  destruct (strict_gate_ok c h tbl evs) eqn:E; cbn [negb].
-  - rewrite IH. apply strict_gate_ok_iff in E. tauto.
-  - split; [discriminate|]. intros [H _]. apply strict_gate_ok_iff in H. congruence.
-Qed.
-Theorem main_strict_code_fixed c ns rounds :
-  wf_rounds rounds = true -> strict_code c ns rounds (map fst (run_gen true c ns rounds ([], []))) = 0.
-Proof. intros H. apply check_strict_iff. apply strict_holds_fixed. exact H. Qed.
 
-Lemma strict_hist_nth c : forall tbls obs h i tbl ps evs,
-  strict_hist_holds c tbls obs h ->
-  nth_error tbls i = Some (tbl, ps) -> nth_error obs i = Some evs ->
-  strict_gate_holds c (rev (map fst (firstn i tbls)) ++ h) tbl evs.
+(* one segment *)
+Lemma seg_ok_iff strict pt cum hist seg : seg_ok strict pt cum hist seg = true <-> seg_holds strict pt cum hist seg.
 Proof.
-  induction tbls as [|[tbl0 ps0] t IH]; intros obs h i tbl ps evs H Ht Ho.
-  - destruct i; discriminate.
-  - destruct obs as [|evs0 ot]; [destruct i; discriminate|]. cbn [strict_hist_holds] in H.
-    destruct H as [H1 H2]. destruct i as [|i]; cbn [nth_error firstn map rev] in *.
-    + inversion Ht; inversion Ho; subst. exact H1.
-    + rewrite <- app_assoc. apply (IH ot (tbl0 :: h) i tbl ps evs H2 Ht Ho).
+  unfold seg_ok, seg_code, seg_holds.
+  set (k := check_round_from _ _ _ _ _ seg).
+  split.
+  - intros H. apply Z.eqb_eq in H. destruct (k =? 0) eqn:Ek; cbn [negb] in H.
+    2:{ destruct (check_round _ _ _ seg =? 0); [discriminate|]. rewrite H in Ek. discriminate. }
+    apply Z.eqb_eq in Ek. destruct (gate_ok _ hist _ seg) eqn:Eg; cbn [negb] in H; [|discriminate].
+    split; [apply check_round_from_sound; exact Ek|]. split; [apply gate_ok_iff; exact Eg|].
+    intros ->. cbn [andb] in H. destruct (strict_gate_ok _ hist _ seg) eqn:Es; cbn [negb] in H; [|discriminate].
+    apply strict_gate_ok_iff. exact Es.
+  - intros [H1 [H2 H3]]. apply Z.eqb_eq. apply check_round_from_complete in H1. fold k in H1. rewrite H1.
+    cbn [Z.eqb negb]. apply gate_ok_iff in H2. rewrite H2. cbn [negb].
+    destruct strict; cbn [andb]; [|reflexivity].
+    specialize (H3 eq_refl). apply strict_gate_ok_iff in H3. rewrite H3. reflexivity.
+Qed.
+
+(* the pools of a Balance call: some split of the calls works *)
+Lemma pools_ok_iff strict : forall pts cum hist evs,
+  pools_ok strict pts cum hist evs = true <-> pools_hold strict pts cum hist evs.
+Proof.
+  induction pts as [|pt t IH]; intros cum hist evs; cbn [pools_ok pools_hold].
+  - apply is_nil_true.
+  - rewrite existsb_exists. split.
+    + intros [k [_ H]]. apply andb_true_iff in H. destruct H as [H1 H2].
+      exists (firstn k evs), (skipn k evs). split; [symmetry; apply firstn_skipn|].
+      split; [apply seg_ok_iff; exact H1|apply IH; exact H2].
+    + intros [seg [rest [-> [H1 H2]]]]. exists (length seg). split.
+      * apply in_seq. rewrite app_length. lia.
+      * rewrite firstn_app, Nat.sub_diag, firstn_all. cbn [firstn]. rewrite app_nil_r.
+        rewrite skipn_app, Nat.sub_diag, skipn_all. cbn [skipn app].
+        apply andb_true_iff. split; [apply seg_ok_iff; exact H1|apply IH; exact H2].
+Qed.
+
+Lemma hist_ok_iff strict : forall tbls obs h, hist_ok strict tbls obs h = true <-> hist_holds strict tbls obs h.
+Proof.
+  induction tbls as [|pts t IH]; intros [|evs ot] h; cbn [hist_ok hist_holds]; try tauto;
+    try (split; [discriminate|intros []]).
+  rewrite andb_true_iff, pools_ok_iff, IH. tauto.
+Qed.
+
+(* the strict reading implies the counting one *)
+Lemma pools_hold_weaken : forall pts cum hist evs,
+  pools_hold true pts cum hist evs -> pools_hold false pts cum hist evs.
+Proof.
+  induction pts as [|pt t IH]; intros cum hist evs; cbn [pools_hold]; [tauto|].
+  intros [seg [rest [H1 [[A [B _]] H3]]]]. exists seg, rest. split; [exact H1|].
+  split; [split; [exact A|split; [exact B|discriminate]]|apply IH; exact H3].
+Qed.
+Lemma hist_holds_weaken : forall tbls obs h, hist_holds true tbls obs h -> hist_holds false tbls obs h.
+Proof.
+  induction tbls as [|pts t IH]; intros [|evs ot] h; cbn [hist_holds]; try tauto.
+  intros [H1 H2]. split; [apply pools_hold_weaken; exact H1|apply IH; exact H2].
+Qed.
+
+Lemma hist_code_nonzero : forall tbls obs h, hist_ok false tbls obs h = false -> hist_code tbls obs h <> 0.
+Proof.
+  induction tbls as [|pts t IH]; intros [|evs ot] h E2; cbn [hist_ok hist_code] in *; try discriminate.
+  destruct (pools_ok false pts [] h evs); cbn [andb] in E2.
+  - apply IH. exact E2.
+  - destruct (pools_code pts [] h evs =? 0) eqn:Ek; [discriminate|]. intros H. rewrite H in Ek. discriminate.
+Qed.
+
+Theorem prop_code_iff tbls obs : prop_code tbls obs = 0 <-> C18_holds true tbls obs.
+Proof.
+  unfold prop_code, C18_holds. destruct (hist_ok true tbls obs []) eqn:E.
+  - apply hist_ok_iff in E. tauto.
+  - split.
+    + destruct (hist_ok false tbls obs []) eqn:E2; [discriminate|].
+      intros H. exfalso. exact (hist_code_nonzero tbls obs [] E2 H).
+    + intros H. apply hist_ok_iff in H. congruence.
 Qed.
 
 (* ---------------------------------------------------------------- readable consequences *)
@@ -129,25 +161,70 @@ Proof.
       exists stm, r', p'. split; [eapply vp_cons; eauto|exact H'].
 Qed.
 
-(* no balancing when nobody is overloaded, nobody is underused, or everybody is underused *)
-Theorem nothing_when fx c ns rs ds :
-  wf_round rs = true ->
-  nothing_cond (table c ns rs) (pool_size c ns rs) = true -> fst (balance_gen fx c ns rs ds) = [].
+(* no balancing in a pool in which nobody is overloaded, nobody is underused, or everybody is
+   underused *)
+Theorem nothing_when fx fxp bc ns rs ds q :
+  wf_round rs = true -> In q (fst (balance_gen fx fxp bc ns rs ds)) ->
+  nothing_cond (pt_tbl (fst q)) (pt_size (fst q)) = true -> snd q = [].
 Proof.
-  intros Hwf Hn. unfold balance_gen.
-  destruct (process_pool_round c (table c ns rs) (pool_size c ns rs) (pre_round fx (table c ns rs) ds)
-              (table_wf c ns rs Hwf)) as [_ [H _]].
+  intros Hwf Hq Hn. unfold balance_gen in Hq.
+  destruct (pools_run_steps fx fxp ns rs bc [] ds q Hq) as [c [_ Hst]].
+  destruct (is_step_props fx fxp c ns rs q Hwf Hst) as [_ [_ [_ [[_ [H _]] _]]]].
   apply H. exact Hn.
 Qed.
 
-Theorem dry_run_silent fx c ns rs ds :
-  wf_round rs = true -> cdry c = true -> fst (balance_gen fx c ns rs ds) = [].
+Theorem dry_run_silent fx fxp bc ns rs ds :
+  wf_round rs = true -> (forall c, In c bc -> cdry c = true) ->
+  evs_of (fst (balance_gen fx fxp bc ns rs ds)) = [].
 Proof.
-  intros Hwf Hd. unfold balance_gen.
-  destruct (process_pool_round c (table c ns rs) (pool_size c ns rs) (pre_round fx (table c ns rs) ds)
-              (table_wf c ns rs Hwf)) as [H _].
-  apply H. exact Hd.
+  intros Hwf Hd. unfold balance_gen, evs_of.
+  pose proof (pools_run_steps fx fxp ns rs bc [] ds) as Hs.
+  induction (fst (pools_run fx fxp bc ns rs [] ds)) as [|q L IH]; [reflexivity|]. cbn [map concat].
+  destruct (Hs q (or_introl eq_refl)) as [c [Hc Hst]].
+  destruct (is_step_props fx fxp c ns rs q Hwf Hst) as [_ [_ [_ [[H _] _]]]].
+  rewrite (H (Hd c Hc)). cbn [app]. apply IH. intros q' Hq'. apply Hs. right; exact Hq'.
 Qed.
+
+(* ---------------------------------------------------------------- main theorems *)
+(* pairwise disjoint pools: every variant of the code; strict gate for the variant with the anomaly repair *)
+Theorem main_disjoint fx fxp bc ns rounds :
+  wf_rounds rounds = true -> disjoint_pools bc ns = true ->
+  C18_holds fx (tables fx fxp bc ns rounds) (observed (run_gen fx fxp bc ns rounds ([], []))).
+Proof.
+  intros Hwf Hd. unfold C18_holds, tables.
+  apply (hist_holds_disjoint fx fxp bc ns Hd rounds ([], []) [] Hwf).
+  - intros R [].
+  - apply (run_gen_mu (kof bc ns) count_steps count_steps_nonneg count_steps_src fx fxp bc ns
+             (fun ids tbl h ds _ H => count_pre (kof bc ns) fx ids tbl h ds H)
+             (kof_ok fxp bc ns Hd) rounds ([], []) [] Hwf (dstate_inv_init _ _)).
+  - intros ->.
+    apply (run_gen_mu (kof bc ns) streak_steps streak_steps_nonneg streak_steps_src true fxp bc ns
+             (streak_pre (kof bc ns))
+             (kof_ok fxp bc ns Hd) rounds ([], []) [] Hwf (dstate_inv_init _ _)).
+Qed.
+
+(* overlapping pools, no anomaly gating, processedNodes repaired *)
+Theorem main_repaired fx bc ns rounds :
+  wf_rounds rounds = true -> no_gating bc = true ->
+  C18_holds true (tables fx true bc ns rounds) (observed (run_gen fx true bc ns rounds ([], []))).
+Proof. intros Hwf Hg. unfold C18_holds, tables. apply (hist_holds_repaired fx bc ns Hg rounds ([], []) [] Hwf). Qed.
+
+(* overlapping pools, no anomaly gating, any variant: re-entry is the only way to fail *)
+Theorem main_noreentry fx fxp bc ns rounds :
+  wf_rounds rounds = true -> no_gating bc = true ->
+  run_no_reentry (run_gen fx fxp bc ns rounds ([], [])) ->
+  C18_holds true (tables fx fxp bc ns rounds) (observed (run_gen fx fxp bc ns rounds ([], []))).
+Proof. intros Hwf Hg Hre. unfold C18_holds, tables. apply (hist_holds_noreentry fx fxp bc ns Hg rounds ([], []) [] Hwf Hre). Qed.
+
+Theorem main_prop_code fxp bc ns rounds :
+  wf_rounds rounds = true -> disjoint_pools bc ns = true ->
+  prop_code (tables true fxp bc ns rounds) (observed (run_gen true fxp bc ns rounds ([], []))) = 0.
+Proof. intros H1 H2. apply prop_code_iff. apply (main_disjoint true fxp bc ns rounds H1 H2). Qed.
+
+Theorem main_prop_code_repaired fx bc ns rounds :
+  wf_rounds rounds = true -> no_gating bc = true ->
+  prop_code (tables fx true bc ns rounds) (observed (run_gen fx true bc ns rounds ([], []))) = 0.
+Proof. intros H1 H2. apply prop_code_iff. apply (main_repaired fx bc ns rounds H1 H2). Qed.
 
 (* ---------------------------------------------------------------- "only while it helps" *)
 (* with non-negative pod usage the estimates only go down, so once the stop condition of a
@@ -178,16 +255,27 @@ Proof.
 Qed.
 
 (* ---------------------------------------------------------------- per-round view of a history *)
-Lemma hist_holds_nth c : forall tbls obs h i tbl ps evs,
-  hist_holds c tbls obs h ->
-  nth_error tbls i = Some (tbl, ps) -> nth_error obs i = Some evs ->
-  round_holds c tbl ps evs /\ gate_holds c (rev (map fst (firstn i tbls)) ++ h) tbl evs.
+Lemma hist_holds_nth strict : forall tbls obs h i pts evs,
+  hist_holds strict tbls obs h ->
+  nth_error tbls i = Some pts -> nth_error obs i = Some evs ->
+  pools_hold strict pts [] (rev (map steps_of (firstn i tbls)) ++ h) evs.
 Proof.
-  induction tbls as [|[tbl0 ps0] t IH]; intros obs h i tbl ps evs H Ht Ho.
+  induction tbls as [|pts0 t IH]; intros obs h i pts evs H Ht Ho.
   - destruct i; discriminate.
   - destruct obs as [|evs0 ot]; cbn [hist_holds] in H; [contradiction|].
-    destruct H as [H1 [H2 H3]]. destruct i as [|i]; cbn [nth_error firstn map rev] in *.
-    + inversion Ht; inversion Ho; subst. split; assumption.
-    + destruct (IH ot (tbl0 :: h) i tbl ps evs H3 Ht Ho) as [I1 I2]. split; [exact I1|].
-      rewrite <- app_assoc. exact I2.
+    destruct H as [H1 H2]. destruct i as [|i]; cbn [nth_error firstn map rev] in *.
+    + inversion Ht; inversion Ho; subst. exact H1.
+    + rewrite <- app_assoc. apply (IH ot (steps_of pts0 :: h) i pts evs H2 Ht Ho).
+Qed.
+
+(* every segment of a split is a valid round of its pool, from the estimates left by the earlier
+   pools *)
+Lemma pools_hold_seg strict : forall pts cum hist evs, pools_hold strict pts cum hist evs ->
+  forall pt, In pt pts -> exists cum' seg, incl seg evs /\ seg_holds strict pt cum' hist seg.
+Proof.
+  induction pts as [|pt0 t IH]; intros cum hist evs H pt Hpt; [destruct Hpt|].
+  cbn [pools_hold] in H. destruct H as [seg [rest [-> [H1 H2]]]]. destruct Hpt as [<-|Hpt].
+  - exists cum, seg. split; [apply incl_appl; apply incl_refl|exact H1].
+  - destruct (IH _ _ _ H2 pt Hpt) as [cum' [seg' [Hi Hs]]]. exists cum', seg'.
+    split; [apply incl_appr; exact Hi|exact Hs].
 Qed.
